@@ -234,7 +234,9 @@ class Network(Module):
             )
 
         # Convert comp_edges to the index format required for `jax.sparse` solvers.
-        n_nodes, data_inds, indices, indptr = comp_edges_to_indices(self._comp_edges)
+        n_nodes, data_inds, indices, indptr = comp_edges_to_indices(
+            self._comp_edges, num_comps=int(self.cumsum_ncomp[-1])
+        )
         self._n_nodes = n_nodes
         self._data_inds = data_inds
         self._indices_jax_spsolve = indices
